@@ -36,6 +36,7 @@ type FrameCfg struct {
 	EIncl bool   `json:"eincl"`
 	Real  bool   `json:"real"`
 	DL    int    `json:"dl"`
+	FragM string `json:"frag"`
 	Strip bool   `json:"strip"`
 	N     int    `json:"n"`
 }
@@ -90,6 +91,10 @@ func (c FrameCfg) tla() map[string]interface{} {
 		return map[string]interface{}{"kind": "varint", "max": c.Max}
 	case "delim":
 		return map[string]interface{}{"kind": "delim", "max": c.Max, "dl": c.DL, "strip": c.Strip}
+	case "varlen":
+		return map[string]interface{}{"kind": "varlen", "max": c.Max, "frag": c.FragM}
+	case "packet":
+		return map[string]interface{}{"kind": "packet"}
 	}
 	return map[string]interface{}{"kind": "fixed", "n": c.N}
 }
@@ -194,6 +199,12 @@ func buildCodec(c FrameCfg, little bool) (dec netty.InboundHandler, enc netty.Ou
 		dec, enc = cd, cd
 	case "fixed":
 		cd := frame.FixedLengthCodec(c.N)
+		dec, enc = cd, cd
+	case "varlen":
+		cd := frame.VariableLengthCodec(c.Max)
+		dec, enc = cd, cd
+	case "packet":
+		cd := frame.PacketCodec(128)
 		dec, enc = cd, cd
 	}
 	return
@@ -389,7 +400,10 @@ func runFrameCase(c *FrameCase) *FrameResult {
 		}
 	}
 	src := &fragReader{data: wire[:cut], cuts: cuts, mode: c.Frag, rnd: rnd}
-	for inv := 0; inv <= len(frames); inv++ {
+	if cf.Kind == "varlen" {
+		src.mode = cf.FragM // the messages of this codec are the transport reads themselves
+	}
+	for inv := 0; inv <= len(frames) || ((cf.Kind == "varlen") && inv < 4000); inv++ {
 		before := src.pos
 		ev := FrameEvent{Op: "dec", Ps: []int{}, Enc: [][]int{}}
 		var delivered []byte
@@ -420,7 +434,16 @@ func runFrameCase(c *FrameCase) *FrameResult {
 			ev.Res = "none"
 		}
 		// byte-level oracle
-		if ev.Res == "msg" {
+		if ev.Res == "msg" && (cf.Kind == "varlen" || cf.Kind == "packet") {
+			// no framing: what is delivered must be exactly the next bytes of the stream
+			ev.Complete = true
+			if !bytes.Equal(delivered, wire[before:before+ev.Consumed]) || len(delivered) != ev.Consumed {
+				fail("C04", "roundtrip/"+cf.Kind, fmt.Sprintf("%s delivered %d bytes that are not the next %d bytes of the stream", cf.Kind, len(delivered), ev.Consumed), inv)
+			}
+			if cf.Kind == "varlen" && len(delivered) > cf.Max {
+				fail("C08", "oversized/varlen", fmt.Sprintf("varlen delivered %d bytes, the configured maximum is %d", len(delivered), cf.Max), inv)
+			}
+		} else if ev.Res == "msg" {
 			var f *fr
 			if inv < len(frames) {
 				f = &frames[inv]
@@ -485,11 +508,11 @@ func runFrameCase(c *FrameCase) *FrameResult {
 			if cf.Kind == "fixed" {
 				limit = cf.N
 			}
-			if len(delivered) > limit {
+			if len(delivered) > limit && cf.Kind != "packet" {
 				fail("C08", "oversized/"+cf.Kind, fmt.Sprintf("%s delivered %d bytes, the configured maximum is %d", cf.Kind, len(delivered), limit), inv)
 			}
 		}
-		if ev.Res == "msg" && ev.Consumed == 0 {
+		if ev.Res == "msg" && ev.Consumed == 0 && cf.Kind != "packet" {
 			fail("C08", "no-progress/"+cf.Kind, fmt.Sprintf("%s delivered a message without consuming input", cf.Kind), inv)
 		}
 		res.Actions[cf.Kind+"/"+ev.Res]++
@@ -497,7 +520,10 @@ func runFrameCase(c *FrameCase) *FrameResult {
 		if ev.Res != "msg" || c.Raw {
 			break
 		}
-		if inv < len(frames) && ev.Consumed != frames[inv].size {
+		if cf.Kind == "packet" {
+			break
+		}
+		if cf.Kind != "varlen" && inv < len(frames) && ev.Consumed != frames[inv].size {
 			break // the decoder is no longer aligned with the frames: what follows depends on byte values
 		}
 	}
@@ -665,8 +691,11 @@ func runFrameFuzz(c *FrameCase, res *FrameResult, fail func(prop, key, msg strin
 			if cf.Kind == "fixed" {
 				limit = cf.N
 			}
-			if got && len(delivered) > limit {
+			if got && len(delivered) > limit && cf.Kind != "packet" {
 				fail("C08", "oversized/"+cf.Kind, fmt.Sprintf("%s delivered %d bytes, the configured maximum is %d", cf.Kind, len(delivered), limit), it)
+			}
+			if cf.Kind == "packet" {
+				break
 			}
 			if got && inv == 0 && mustRefuse {
 				fail("C08", "oversized-accepted/"+cf.Kind, fmt.Sprintf("%s: the first header (% x) announces a frame beyond the maximum %d (or is malformed) but a %d-byte message was delivered instead of an exception", cf.Kind, data[:minInt(len(data), 11)], cf.Max, len(delivered)), it)
